@@ -19,13 +19,15 @@ CONSTANT MaxNest
 Faults == { [n |-> "fail", e |-> Call("fail", <<IntL(1)>>)],
             [n |-> "div0", e |-> Par(Bin("/", IntL(1), IntL(0)))],
             [n |-> "nofunc", e |-> Call("nosuch", <<IntL(1)>>)],
-            [n |-> "range", e |-> Idx(Id("xs"), IntL(5))] }
+            [n |-> "range", e |-> Idx(Id("xs"), IntL(5))],
+            \* a (value, error) helper that fails, its result used through a member path
+            [n |-> "failchain", e |-> Par(Dot(Call("failrec", <<IntL(1)>>), "Name"))] }
 
 BinOps == {"+", "-", "*", "/", "<", "<=", ">", ">=", "==", "!=", "~=", "&&", "||"}
 
 ECs == { [k |-> "binL", op |-> op] : op \in BinOps } \cup { [k |-> "binR", op |-> op] : op \in BinOps }
        \cup { [k |-> "skipR", op |-> "&&"], [k |-> "skipR", op |-> "||"] }
-       \cup { [k |-> c, op |-> ""] : c \in {"not", "arr", "hashv", "idxI", "idxL", "argGo", "argP", "argUser", "cond", "elifcond", "iter"} }
+       \cup { [k |-> c, op |-> ""] : c \in {"not", "arr", "hashv", "idxI", "idxL", "argGo", "argP", "argUser", "argVar0", "argVar1", "cond", "elifcond", "iter"} }
 
 \* the other operand is chosen so that the hole is evaluated (binL/binR) or skipped (skipR)
 WrapE(c, e) ==
@@ -40,11 +42,13 @@ WrapE(c, e) ==
     [] c.k = "argGo" -> Call("id", <<e>>)
     [] c.k = "argP"  -> Call("p", <<IntL(2), e>>)
     [] c.k = "argUser" -> Call("f", <<e>>)
+    [] c.k = "argVar0" -> Call("vcount", <<e, IntL(2)>>)          \* first / later argument in the variadic tail of a Go helper
+    [] c.k = "argVar1" -> Call("vcount", <<IntL(1), e>>)
     [] c.k = "cond"  -> IfElse(e, <<Text(<<"T">>)>>, <<Text(<<"F">>)>>)
     [] c.k = "elifcond" -> IfChain(Bool(FALSE), <<Text(<<"N">>)>>, <<[c |-> e, b |-> <<Text(<<"T">>)>>]>>, <<Text(<<"F">>)>>, TRUE)
     [] c.k = "iter"  -> For("", "v", e, <<Text(<<"i">>)>>)
 
-SCs == {"foriter", "formap", "foriterif", "emit", "silent", "let", "assign", "ifbody", "elsebody", "forbody", "forsilent", "forsecond", "fnbody", "fnreturn",
+SCs == {"foriter", "formap", "foriterif", "emit", "silent", "let", "assign", "ifbody", "elsebody", "elifbody", "elifbodynoelse", "forbody", "forsilent", "forsecond", "fnbody", "fnreturn",
         "blk", "blkown", "contentfor", "contentofdefault", "partial", "layout", "partialdata", "nestedpartial", "laidpartial", "laidnested"}
 
 PName(s) == s
@@ -55,6 +59,9 @@ WrapS(c, e) ==
     [] c = "assign"    -> [prog |-> <<Let("z", IntL(1)), Code(Assign("z", e)), Emit(Id("z"))>>, parts |-> EmptyScope]
     [] c = "ifbody"    -> [prog |-> <<Emit(If(Bool(TRUE), <<Text(<<"a">>), Emit(e), Text(<<"b">>)>>))>>, parts |-> EmptyScope]
     [] c = "elsebody"  -> [prog |-> <<Emit(IfElse(Bool(FALSE), <<Text(<<"a">>)>>, <<Text(<<"c">>), Code(e), Text(<<"b">>)>>))>>, parts |-> EmptyScope]
+    \* the taken branch is an else-if (with and without an else block after it)
+    [] c = "elifbody"  -> [prog |-> <<Emit(IfChain(Bool(FALSE), <<Text(<<"n">>)>>, <<[c |-> Bool(TRUE), b |-> <<Text(<<"a">>), Emit(e), Text(<<"b">>)>>]>>, <<Text(<<"c">>)>>, TRUE))>>, parts |-> EmptyScope]
+    [] c = "elifbodynoelse" -> [prog |-> <<Emit(IfChain(Bool(FALSE), <<Text(<<"n">>)>>, <<[c |-> Bool(TRUE), b |-> <<Text(<<"a">>), Code(e), Text(<<"b">>)>>]>>, <<>>, FALSE))>>, parts |-> EmptyScope]
     [] c = "forbody"   -> [prog |-> <<Emit(For("", "v", Arr(<<IntL(1), IntL(2)>>), <<Emit(Id("v")), Emit(e)>>))>>, parts |-> EmptyScope]
     [] c = "foriter"   -> [prog |-> <<Emit(For("", "v", Call("range", <<IntL(1), IntL(2)>>), <<Emit(Id("v")), Emit(e)>>))>>, parts |-> EmptyScope]
     [] c = "foriterif" -> [prog |-> <<Emit(For("", "v", Call("until", <<IntL(3)>>), <<Emit(Id("v")), Code(If(Bin("==", Id("v"), IntL(1)), <<Code(e)>>))>>))>>, parts |-> EmptyScope]
@@ -99,9 +106,9 @@ BlockECs == {"cond", "elifcond", "iter"}
 \* `for (v) in !f(x) { ...` hands the loop's block to the call f(x): only a call that is the whole
 \* iterable may be followed by the loop body
 RECURSIVE EndsInCall(_)
-EndsInCall(cs) == IF cs = <<>> THEN fault.n \in {"fail", "nofunc"}
+EndsInCall(cs) == IF cs = <<>> THEN fault.n \in {"fail", "nofunc", "failchain"}
                   ELSE IF Head(cs).k = "not" THEN EndsInCall(Tail(cs))
-                  ELSE Head(cs).k \in {"argGo", "argP", "argUser"}
+                  ELSE Head(cs).k \in {"argGo", "argP", "argUser", "argVar0", "argVar1"}
 IterOK(cs) == IF cs = <<>> THEN TRUE ELSE IF Head(cs).k = "not" THEN ~EndsInCall(cs) ELSE TRUE
 RECURSIVE CondOK(_)
 CondOK(cs) == IF cs = <<>> THEN TRUE
